@@ -33,6 +33,8 @@ pub struct Entry {
     pub layout: fn() -> String,
     /// value term -> schema rows and bytes of `serialize_with_schema`, `debug`/`to_csv` outcomes
     pub schema: fn(&Term) -> String,
+    /// value term, base residue -> allocator calls / bytes during deserialize_eps, and the result
+    pub alloc: Option<fn(&Term, usize) -> String>,
     /// value term, writer spec -> result and bytes accepted by a faulty writer
     pub wfail: fn(&Term, &str) -> String,
     /// bytes, fragmentation pattern, failure position, eof-instead-of-error -> result of deserialize_full
@@ -165,6 +167,29 @@ pub fn schema_generic<T: Serialize>(v: &T) -> String {
     }
 }
 
+pub fn alloc_generic<T>(bytes: &[u8], r: usize) -> String
+where
+    T: Deserialize + TypeHash + AlignHash,
+    for<'a> DeserType<'a, T>: Show,
+{
+    let mut arena = Arena::new(bytes.len());
+    let slice = arena.place(bytes, r);
+    BASE.with(|b| b.set((slice.as_ptr() as usize, slice.len())));
+    let before = alloc::snapshot();
+    let res = catch(|| T::deserialize_eps(slice));
+    let after = alloc::snapshot();
+    let out = match res {
+        None => "panic".to_string(),
+        Some(Err(e)) => err_string(&e),
+        Some(Ok(v)) => {
+            let mut s = String::from("ok ");
+            v.show(&mut s);
+            s
+        }
+    };
+    format!("alloc {} {} | E {}", after.0 - before.0, after.1 - before.1, out)
+}
+
 pub fn feed_generic<T: TypeHash + AlignHash>() -> (Vec<u8>, Vec<u8>) {
     let mut a = Rec::default();
     T::type_hash(&mut a);
@@ -220,6 +245,13 @@ where
             None => "badterm".into(),
         },
         rchunk: Some(ops::rchunk_generic::<T>),
+        alloc: Some(|t, r| match catch(|| T::from_term(t)) {
+            Some(v) => match ser_generic(&v) {
+                Ok((_, bytes)) => alloc_generic::<T>(&bytes, r),
+                Err(e) => format!("alloc ser-{}", e),
+            },
+            None => "badterm".into(),
+        }),
         extra: ops::Extra::new::<T>(),
     }
 }
